@@ -252,3 +252,12 @@ PROPS["C17"] = {
     ],
     "floor_q": 1000, "floor_t": 50000,
 }
+
+_hist("C15", [
+    {"name": "ta-concurrent", "pkg": RESMGR, "race": True, "run": "^TestVerifC15TA$", "replay_run": "^TestVerifC15TAReplay$", "q": 60, "t": 8000, "per_proc": 250},
+    {"name": "balloons-concurrent", "pkg": RESMGR, "race": True, "run": "^TestVerifC15Balloons$", "replay_run": "^TestVerifC15BalloonsReplay$", "q": 60, "t": 8000, "per_proc": 250},
+  ],
+  "rapid-generated histories with concurrent phases: 2-5 lifecycle lanes (each walks its own new pod through a generated prefix of run/create/start/update/stop/remove/stop-pod/remove-pod), update lanes on distinct existing containers, a configuration update lane and (in phases without lifecycle lanes) a Synchronize, all released at once from separate goroutines with generated scheduler yields; binary built with the Go race detector whose reports are read back after every phase; oracles = no race report, completion (deadlock watchdog), cache membership equals the runtime's, every cached decision was delivered in some reply of the phase, and all invariant libraries of C01-C05/C09 after the phase and after every later sequential request",
+  "non-trivial = a phase ran >= 3 lanes and >= 6 requests concurrently",
+  ["the Go scheduler, not the harness, picks the interleaving; the race detector judges happens-before rather than the observed order, so unsynchronised access pairs are reported whenever both accesses occur in a phase", "a phase that does not finish within 180 s with a goroutine blocked on a lock or channel counts as a deadlock"],
+  floor_q=5, floor_t=100)
